@@ -27,7 +27,9 @@ Inductive case :=
          (intended : option (list (bytes * option bytes)))
 | CNeg (lines : list bytes) (offers : list bytes) (default : bytes) (panicked : bool) (r : bytes)
 | CEnc (lines : list bytes) (offers : list bytes) (panicked : bool) (r : bytes)
-| CHandler (lines : list bytes) (route_offers : list bytes) (panicked : bool) (status : nat) (ran : bool).
+| CHandler (lines : list bytes) (route_offers : list bytes) (panicked : bool) (status : nat) (ran : bool)
+| CHandlerSeq (route_offers : list bytes) (panicked : bool)
+              (steps : list (list bytes * nat * bool * bytes)).   (* successive requests on ONE handler instance *)
 
 Definition spec_matches (sp : spec) (o : bytes * gofloat) : bool :=
   bytes_eqb (sval sp) (fst o) && float_is_q (snd o) (sq sp).
@@ -58,6 +60,34 @@ Definition range_matches (g : bytes * option bytes) (o : bytes * gofloat) : bool
                 | Some (n, d) => float_near40 (snd o) n d
                 | None => false
                 end
+  end.
+
+(* Context.Respond negotiates over the route's produces with the API default (application/json for the untyped API) moved last *)
+Definition JSON_MIME : bytes := [97;112;112;108;105;99;97;116;105;111;110;47;106;115;111;110].
+Definition respond_offers (offers : list bytes) : list bytes :=
+  filter (fun o => negb (bytes_eqb o JSON_MIME)) offers ++ [JSON_MIME].
+
+(* one request through the API handler: (correspondence, property) *)
+Definition handler_step (offers : list bytes) (lines : list bytes) (status : nat) (ran : bool) (ct : option bytes) : bool * bool :=
+  match parse_accept lines with
+  | Some specs =>
+    let acceptable := match specs with [] => true | _ => match scored specs offers with [] => false | _ => true end end in
+    let no_offers := match offers with [] => true | _ => false end in
+    let expect406 := negb acceptable && negb no_offers in
+    let chosen := negotiate_content_type specs offers [] in
+    (* when served, the Content-Type is the offer negotiated among the produces list plus the default, last *)
+    let ct_ok := match ct with
+                 | Some t => if ran then (no_offers || bytes_eqb t (negotiate_content_type specs (respond_offers offers) [])) else true
+                 | None => true
+                 end in
+    let ct_prop := match ct with
+                   | Some t => if ran then (no_offers || lexmax_b specs (respond_offers offers) [] t) else true
+                   | None => true
+                   end in
+    (Bool.eqb expect406 (bytes_eqb chosen [] && negb no_offers) &&
+     Bool.eqb ran (negb expect406) && Bool.eqb (Nat.eqb status 406) expect406 && ct_ok,
+     Bool.eqb ran (negb expect406) && Bool.eqb (Nat.eqb status 406) expect406 && ct_prop)
+  | None => (false, true)
   end.
 
 Definition check_case (c : case) : N :=
@@ -108,6 +138,10 @@ Definition check_case (c : case) : N :=
               (negb panicked && Bool.eqb ran (negb expect406) && Bool.eqb (Nat.eqb status 406) expect406)
     | None => verdict false (negb panicked)
     end
+  | CHandlerSeq offers panicked steps =>
+    (* the handler is stateless across requests: every request of the history is answered as if it came alone *)
+    let rs := map (fun st => match st with (lines, status, ran, ct) => handler_step offers lines status ran (Some ct) end) steps in
+    verdict (negb panicked && forallb fst rs) (negb panicked && forallb snd rs)
   | CEnc lines offers panicked r =>
     match parse_accept lines with
     | Some specs => verdict (negb panicked && bytes_eqb r (negotiate_content_encoding specs offers)) (negb panicked)
